@@ -776,3 +776,27 @@ def add_clones(model, n=2, base_fid=760):
     root["depends"] += [_dep("cl%d" % i, ["result"]) for i in range(n) if "cl%d" % i not in have]
     m["nextfid"] = max(m.get("nextfid", 0), base_fid + 10)
     return m
+
+
+def add_multi_cross(model, perm, base_fid=780):
+    """a multiPackage recipe whose variants depend on each other through another recipe (acyclic on package level only):
+    mx-two -> xx -> mx-one, mx-three is a leaf; the root depends on the three variants in the order chosen by perm."""
+    import itertools
+    m = copy.deepcopy(model)
+    main = _plain_body()
+    main["steps"]["build"]["script"] = base_fid
+    main["steps"]["package"]["script"] = base_fid + 1
+    def sub(deps):
+        return {"depends": deps, "environment": {}, "steps": {}, "privateEnvironment": {}, "metaEnvironment": {},
+                "provideVars": {}, "provideDeps": [], "provideTools": {}}
+    multi = {"one": sub([]), "two": sub([_dep("xx", ["result"])]), "three": sub([])}
+    xx = _plain_body(depends=[_dep("mx-one", ["result"])])
+    xx["steps"]["build"]["script"] = base_fid + 2
+    xx["steps"]["package"]["script"] = base_fid + 3
+    m["recipes"] += [{"name": "mx", "body": main, "multi": multi}, {"name": "xx", "body": xx, "multi": None}]
+    order = list(itertools.permutations(["mx-one", "mx-two", "mx-three"]))[perm % 6]
+    root = m["recipes"][0]["body"]
+    have = {d["name"] for d in root["depends"]}
+    root["depends"] += [_dep(n, ["result"]) for n in order if n not in have]
+    m["nextfid"] = max(m.get("nextfid", 0), base_fid + 10)
+    return m
